@@ -12,12 +12,13 @@ get_dependencies, on the first query and on should_cancel.  Proved for answers c
 and a lawful version set: the set passed to `choose_version` is the set of the most recent
 `prioritize` request for that package (`C12_choose_set_is_prioritized_set`, a trace-level invariant on
 top of the queue invariant of C14).
-Open (covered by the correspondence's trace automaton on every recorded run): `choose_version`'s set is
-non-empty — needs "no accumulated term is `Positive(∅)`", which for the derivation that follows a
-backjump is part of the satisfier theory.
+`C12_choose_nonempty`: the set passed to `choose_version` has a member (consistent answers, lawful set with
+canonical emptiness) — from the invariant "no accumulated term of a live state is empty" (`NonEmpty`),
+whose hard case, the derivation that follows a backjump, rests on the satisfier theory.
 -/
 import PubgrubProofs.Protocol
 import PubgrubProofs.Freshness
+import PubgrubProofs.NonEmpty
 
 namespace Pubgrub.C12
 open Pubgrub Pubgrub.Solver VersionSet
@@ -64,5 +65,17 @@ theorem C12_choose_set_is_prioritized_set [LawfulVersionSet S V] (W : World P S 
     (hk : (trace debug fuel root rv as)[k]? = some (.chooseVersion p s)) :
     ∃ pr, lastPrio (trace debug fuel root rv as) as k p = some (s, pr) :=
   choose_set_is_prioritized_set W hW debug fuel root rv as hok k p s hk
+
+theorem C12_choose_nonempty [LawfulVersionSet S V] [CanonicalEmpty S V] (W : World P S V M)
+    (hW : W.SetsValid) (debug : Bool) (fuel : Nat) (root : P) (rv : V) (s : SolverState P S V M Pr)
+    (p : P) (set : S) (h : Reachable (E := E) W debug fuel root rv (s, .chooseVersion p set)) :
+    ∃ v : V, VersionSet.contains set v = true :=
+  choose_nonempty W hW debug fuel root rv s p set h
+
+theorem C12_no_empty_term [LawfulVersionSet S V] [CanonicalEmpty S V] (W : World P S V M)
+    (hW : W.SetsValid) (debug : Bool) (fuel : Nat) (root : P) (rv : V)
+    (x : SolverState P S V M Pr × Request P S V M Pr E)
+    (h : Reachable W debug fuel root rv x) (hph : x.2.isFinal = false) : x.1.st.ps.NonEmpty :=
+  reachable_nonEmpty W hW debug fuel root rv x h hph
 
 end Pubgrub.C12
